@@ -5,7 +5,7 @@ cd "$(dirname "$0")"
 export GOFLAGS=-mod=mod GOPROXY=off GOSUMDB=off GOTOOLCHAIN=local
 mkdir -p build evidence
 cp /repo/go.sum harness/go.sum 2>/dev/null || true
-(cd translator && go build -o ../build/translator . && ../build/translator -repo /repo > ../coq/gen/Tables.v.new && mv ../coq/gen/Tables.v.new ../coq/gen/Tables.v)
+(cd translator && go build -o ../build/translator . && ../build/translator -repo /repo | python3 ../tools/split_tables.py)
 (cd coq && coq_makefile -f _CoqProject -o Makefile >/dev/null && timeout 3000 make -j16)
 (cd harness && CGO_ENABLED=0 go build -tags verif -o ../build/harness .)
 echo "setup done"
